@@ -808,7 +808,26 @@ def class_scenario(rng, name):
             ev.append(("reply", "X", "drone.srv", rng.choice(["OK", "OK", "AGAIN x"]), "cur"))
         ev.append(("line", "H"))
         scripts[cid] = ev
-    ops = header("class", cfg) + render_schedule(rng, scripts) + [inl("-1 ? :stats"), "eof"]
+    head = header("class", cfg)
+    if rules and rng.random() < 0.3:
+        # the rule table the clients meet was reached through a reload that edited one rule in place:
+        # a criterion dropped, added or changed (the compiled rule must be exactly the new text)
+        k = rng.randrange(len(rules))
+        n, kv = rules[k]
+        crits = [("address", rng.choice(["9.9.9.9", "10.0.0.0/8", "1.2.3.0/24"])), ("hostname", "nomatch"), ("username", "nomatch"),
+                 ("account", "nomatch"), ("trust_username", "yes"), ("xreply_ok", "nosuch")]
+        extra = rng.choice(crits)
+        r = rng.random()
+        if r < 0.5:
+            before = [x for x in kv if x[0] != extra[0]] + [extra]        # the old file had one criterion more
+        elif r < 0.75:
+            before = [x for x in kv if x[0] != extra[0]]                  # … or lacked one the new file has
+        else:
+            before = [(a, ("other" if a == extra[0] else b)) for a, b in kv] or [extra]
+        old_rules = list(rules)
+        old_rules[k] = (n, before)
+        head = header("class", Cfg(timeout=0, services=services, rules=old_rules)) + [cfg.op("reload")]
+    ops = head + render_schedule(rng, scripts) + [inl("-1 ? :stats"), "eof"]
     return Case(name, ops, tags={"mods": "class"})
 
 
@@ -890,6 +909,41 @@ def midflight_reload_scenario(rng, name, with_stray=True):
     if rng.random() < 0.5:
         ops.append(inl("-1 X keep.srv %s :OK" % tag))
     ops += [inl("%d H" % cid), inl("-1 ? :config"), inl("-1 ? :stats"), "eof"]
+    return Case(name, ops, tags={"mods": mods})
+
+
+def relogin_scenario(rng, name):
+    """a client logs in, then sends another password with other modes before it is registered; the
+    +! hold must be taken and released exactly as often as the account and the modes say"""
+    mods = rng.choice(["xquery", "class"])
+    services = [("login.srv", rng.choice(["login", "login", "login-ipr", "combined"]))]
+    if rng.random() < 0.3:
+        services.append(("drone.srv", "dronecheck"))
+    cfg = Cfg(timeout=rng.choice([0, 0, 30]), services=services,
+              rules=[("a", [("class", "cls-a")])] if mods == "class" else [])
+    modes = ["+x", "+!", "+x!", "-!", "+", "-x", "+!-!", "-!+!"]
+    scripts = {}
+    for cid in rng.sample([1, 2, 5, 7], rng.choice([1, 1, 2])):
+        data = [("line", "N host.example"), ("line", "u ident"), ("line", "n nick"), ("line", "U user :real name")]
+        rng.shuffle(data)
+        k = rng.randint(0, 4) if services[0][1] == "login" else 4
+        ev = [("C", rng.choice(["1.2.3.4", "0::1"]), "1234")] + data[:k]
+        ev.append(("line", "P :%s alice pw1" % rng.choice(modes)))
+        ev.append(("reply", "X", "login.srv", rng.choice(["OK alice", "OK alice:17", "OK", "AGAIN later", "OK alice"]), "cur"))
+        ev.append(("line", "P :%s %s" % (rng.choice(modes), rng.choice(["alice pw1", "bob pw2"]))))
+        if rng.random() < 0.8:
+            ev.append(("reply", "X", "login.srv", rng.choice(["OK alice", "OK bob:9", "OK", "NO bad password"]), "cur"))
+        if rng.random() < 0.3:
+            ev.append(("line", "P :%s alice pw1" % rng.choice(modes)))
+            ev.append(("reply", "X", "login.srv", rng.choice(["OK alice", "OK"]), "cur"))
+        ev += data[k:]
+        if len(services) > 1:
+            ev.append(("reply", "X", "drone.srv", "OK", "cur"))
+        if cfg.timeout and rng.random() < 0.4:
+            ev.insert(rng.randint(2, len(ev)), ("timeout",))
+        ev.append(("line", "H"))
+        scripts[cid] = ev
+    ops = header(mods, cfg) + render_schedule(rng, scripts) + [inl("-1 ? :stats"), "eof"]
     return Case(name, ops, tags={"mods": mods})
 
 
@@ -1151,10 +1205,14 @@ def gen_cases(prop, tier, seed):
                 crit, v1, v2 = rng.choice([("hostname", "HOST.EXAMPLE", "host.example"), ("hostname", "host.example", "Host.example"),
                                            ("hostname", "nomatch", "host.example"), ("class", "Lan", "lan"), ("class", "lan", "LAN"),
                                            ("username", "IDENT", "ident"), ("username", "ident", "Ident"),
-                                           ("account", "ACCT", "acct"), ("account", "acct", "Acct"), ("account", "nomatch", "acct")])
+                                           ("account", "ACCT", "acct"), ("account", "acct", "Acct"), ("account", "nomatch", "acct"),
+                                           # a criterion that the new file simply no longer has (seeded change
+                                           # C11-4 reloaded the touched rule in place over its old compiled state)
+                                           ("address", "9.9.9.9", None), ("address", "10.0.0.0/8", None), ("hostname", "nomatch", None),
+                                           ("username", "nomatch", None), ("account", "nomatch", None), ("address", "9.9.9.9", "1.2.3.4")])
                 kv0 = [("class", "cls-a")] if crit != "class" else []
                 svcs = [("login.srv", "login")]
-                mk = lambda kv: Cfg(timeout=0, services=svcs, rules=[("a", kv), ("z", [("class", "fallback")])])
+                mk = lambda kv: Cfg(timeout=0, services=svcs, rules=[("a", [x for x in kv if x[1] is not None]), ("z", [("class", "fallback")])])
                 old, chain = mk(kv0 + [(crit, v1)]), [mk(kv0 + [(crit, v2)])]
                 if rng.random() < 0.4:
                     old, chain = mk(kv0), [mk(kv0 + [(crit, v1)]), mk(kv0 + [(crit, v2)])]
@@ -1165,8 +1223,30 @@ def gen_cases(prop, tier, seed):
                       ("line", "U user :real name"), ("line", "P :+x acct pass"), ("reply", "X", "login.srv", "OK acct", "cur"), ("line", "H")]
                 probe = {9: ev}
             pops = render_schedule(rng, probe) + [inl("-1 ? :config")]
-            cases.append(Case("c17/%d/reload" % i, header(mods, old) + [c.op("reload") for c in chain] + pops + ["eof"],
-                              tags={"group": "c17/%d" % i, "role": "reload", "mods": mods, "nreload": len(chain)}))
+            pre = []
+            if i % 6 == 5 and old.services:
+                # a client whose query is still unanswered when the reload arrives: the new file applies
+                # to everybody who comes afterwards all the same (seeded change C17-4 put off a protocol
+                # change while the service had references)
+                pev = [("C", "10.9.9.9", "999"), ("line", "N wait.example"), ("line", "u ident"), ("line", "n waiter"),
+                       ("line", "U waiter :still waiting"), ("line", "P :+x alice pw")]
+                pre = render_schedule(rng, {9: pev})
+                # literal routing tags assume the serials of a run without the waiting client
+                probe = {cid: [e for e in ev if not (e[0] == "reply" and e[4] not in ("cur", "stale"))] for cid, ev in probe.items()}
+                pops = render_schedule(rng, probe) + [inl("-1 ? :config")]
+                if i % 12 == 5:
+                    # … and the reload changes the protocol of that very service in place
+                    k = rng.randrange(len(old.services))
+                    svc2 = list(new.services) if [n for n, _ in new.services] == [n for n, _ in old.services] else list(old.services)
+                    k = min(k, len(svc2) - 1)
+                    svc2[k] = (svc2[k][0], rng.choice([t for t in SVC_TYPES if t != dict(old.services).get(svc2[k][0])]))
+                    new = Cfg(timeout=0, services=svc2, rules=new.rules)
+                    chain = chain[:-1] + [new]
+                    probe = {cid: client_script(rng, cid, new, mods) for cid in rng.sample([1, 2, 5, 7], 2)}
+                    probe = {cid: [e for e in ev if not (e[0] == "reply" and e[4] not in ("cur", "stale"))] for cid, ev in probe.items()}
+                    pops = render_schedule(rng, probe) + [inl("-1 ? :config")]
+            cases.append(Case("c17/%d/reload" % i, header(mods, old) + pre + [c.op("reload") for c in chain] + pops + ["eof"],
+                              tags={"group": "c17/%d" % i, "role": "reload", "mods": mods, "nreload": len(chain) + len(pre)}))
             cases.append(Case("c17/%d/fresh" % i, header(mods, new) + pops + ["eof"],
                               tags={"group": "c17/%d" % i, "role": "fresh", "mods": mods}))
         return cases
@@ -1182,6 +1262,8 @@ def gen_cases(prop, tier, seed):
             cases.append(noisy_scenario(rng, "noisy/%d" % i))
         elif prop in ("C02", "C03", "C05", "C01", "C10") and i % 5 == 2:
             cases.append(challenge_scenario(rng, "chl/%d" % i))
+        elif prop in ("C01", "C02", "C03", "C05") and i % 10 == 1:
+            cases.append(relogin_scenario(rng, "relogin/%d" % i))
         elif prop in ("C01", "C02", "C04", "C05", "C10") and i % 10 == 6:
             cases.append(reuse_scenario(rng, "reuse/%d" % i))
         elif prop in ("C01", "C02", "C03", "C05", "C10", "C17") and i % 10 == 8:
@@ -1379,6 +1461,8 @@ def _probe_view(recs):
         for l in _lines_of(canon_record(r)):
             if l.startswith(b"S "):
                 continue
+            if l.startswith(b"A xquery :-"):
+                continue      # a service the file no longer names, kept only because it still owes an answer
             l = SERIAL.sub(lambda m: m.group(1) + b"# ", l)
             ls.append(l)
         # slot order is not observable behaviour: X lines of one step and the `A xquery` listing
